@@ -68,7 +68,8 @@ AliasedAt == UNION { { Rec(<< Field("a", P("int32")), Field("f", Alias(s)), Fiel
                             Rec(<< Field("o", Opt(Alias(s))), Field("v", Vec(Alias(s))) >>) } : s \in { x \in AliasedShapes : ~IsUnionishT(x) } }
 \* optionals and unions directly inside every container (a generator that takes "the first case" of a container's item type for the
 \* item type is right for every other item type)
-Unionish == { Opt(P("int32")), Opt(P("string")), Opt(R2), Union(<<Case("int32", P("int32")), Case("string", P("string"))>>, TRUE),
+Unionish == { Opt(P("int32")), Opt(P("string")), Opt(R2), Opt(P("float32")), Opt(P("uint8")), Opt(P("complexfloat64")),
+              Rec(<< Field("value", P("float32")), Field("weight", Opt(P("float32"))) >>), Union(<<Case("int32", P("int32")), Case("string", P("string"))>>, TRUE),
               Union(<<Case("int32", P("int32")), Case("string", P("string"))>>, FALSE), Union(<<Case("float32", P("float32")), Case("rec", R2)>>, FALSE) }
 ContainersOfUnionish == UNION { { Vec(u), FVec(u, 2), Map(P("string"), u), Map(P("int32"), u), DynArr(u), NdArr(u, 1), FArr(u, <<2>>),
                                   Rec(<< Field("m", Map(P("string"), u)), Field("v", Vec(u)) >>) } : u \in Unionish }
